@@ -138,7 +138,7 @@ def worker(shard, nshards, plan, quick):
     idx = 0
 
     def record(code, call, sql, dialect, msg):
-        key = (code, call.split(":")[0] if code != "mutated" else call)
+        key = (code, call.split(":")[0] if code != "mutated" else call.rsplit(":", 1)[0] if "@node:" in call else call)
         v = res["viol"].get(key)
         if v is None:
             res["viol"][key] = {"sql": sql, "dialect": dialect, "calls": call, "msg": msg, "count": 1}
@@ -189,6 +189,38 @@ def worker(shard, nshards, plan, quick):
                         res["transitions"] += 1
                         for code, msg in after_problems(t, snap_root) + after_problems(sub, snap_sub):
                             record(code, name + "@subtree", sql, dialect, msg)
+                # EVERY node of the tree as the root of .sql(): leaves and data types into every dialect (a generator that rewrites
+                # the type / literal it prints), inner nodes into the own, base and T-SQL dialects; the whole tree must stay as it was
+                t = sqlglot.parse_one(sql, read=dialect or None)
+                snap_root = snapshot(t)
+                for ni, n in enumerate(list(t.walk())):
+                    leafish = n.is_leaf() or isinstance(n, exp.DataType)
+                    dl = target_dialects if leafish else sorted({dialect, "", "tsql"})
+                    for d in dl:
+                        try:
+                            n.sql(dialect=d or None)
+                        except Exception:
+                            pass
+                    res["transitions"] += len(dl)
+                    probs = after_problems(t, snap_root)
+                    if probs:
+                        # which dialect did it? (fresh tree per attempt)
+                        culprit = "?"
+                        for d in dl:
+                            t2 = sqlglot.parse_one(sql, read=dialect or None)
+                            s2 = snapshot(t2)
+                            try:
+                                list(t2.walk())[ni].sql(dialect=d or None)
+                            except Exception:
+                                pass
+                            if after_problems(t2, s2):
+                                culprit = d or "base"
+                                break
+                        for code, msg in probs:
+                            record(code, f"sql:{culprit}@node:{type(n).__name__}:{ni}", sql, dialect, msg)
+                        t = sqlglot.parse_one(sql, read=dialect or None)
+                        snap_root = snapshot(t)
+                        break
             elif kind == "corpus":
                 # a dialect-test statement in its own dialect: generation into its own, the base and the main target dialects and
                 # the tree-level calls; the tree is re-used while it stays untouched (re-parsed after any damage)
@@ -374,6 +406,18 @@ def replay(ctx: Ctx, case: dict) -> bool:
     logging.disable(logging.CRITICAL)
     C = calls(all_dialects())
     t = sqlglot.parse_one(case["sql"], read=case["dialect"] or None)
+    if "@node:" in case["calls"]:
+        d, rest = case["calls"][4:].split("@node:")
+        ni = int(rest.split(":")[1])
+        snap = snapshot(t)
+        try:
+            print(list(t.walk())[ni].sql(dialect=None if d == "base" else d))
+        except Exception as e:
+            print("call raised", type(e).__name__)
+        probs = after_problems(t, snap)
+        for p_ in probs:
+            print(p_)
+        return bool(probs)
     names = case["calls"].replace("@subtree", "").split(">")
     sub = t
     if "@subtree" in case["calls"]:
